@@ -7,7 +7,7 @@
 
 use std::{
   cell::{Cell, RefCell},
-  collections::BTreeSet,
+  collections::{BTreeMap, BTreeSet},
   sync::{
     atomic::{AtomicBool, AtomicU64, Ordering},
     Mutex,
@@ -145,8 +145,19 @@ pub fn tap(buffer: &[u8], locator: &Locator) -> TapDecision {
           let loss = packed & 0xff;
           let dup = (packed >> 8) & 0xff;
           let seed = packed >> 16;
-          let n = FAULT_COUNTER.fetch_add(1, Ordering::Relaxed);
-          let r = splitmix(n ^ seed) & 0xff;
+          // The fate of a datagram is a function of what it carries (submessage kinds, entity
+          // ids, sequence numbers - not GUID prefixes, timestamps or counts) and of how many
+          // datagrams with that content went before it: a second attempt of the same case with
+          // the same seed loses the same logical datagrams, so a loss-dependent defect repeats.
+          let key = logical_key(buffer);
+          let n = {
+            let mut m = DOMAIN_OCCURRENCES.lock().unwrap();
+            let c = m.entry((domain as u16, key)).or_insert(0u32);
+            *c += 1;
+            u64::from(*c)
+          };
+          FAULT_COUNTER.fetch_add(1, Ordering::Relaxed);
+          let r = splitmix(key ^ seed ^ (n << 40)) & 0xff;
           if r < loss {
             FAULT_DROPPED.fetch_add(1, Ordering::Relaxed);
             return TapDecision::Swallow;
@@ -189,6 +200,67 @@ fn splitmix(mut h: u64) -> u64 {
   h ^ (h >> 31)
 }
 
+static DOMAIN_OCCURRENCES: Mutex<BTreeMap<(u16, u64), u32>> = Mutex::new(BTreeMap::new());
+
+/// content key of an RTPS datagram for the fault policy
+fn logical_key(b: &[u8]) -> u64 {
+  let mut h = 0xcbf2_9ce4_8422_2325u64;
+  let mut mix = |x: u64| {
+    h ^= x;
+    h = h.wrapping_mul(0x100_0000_01b3);
+  };
+  if b.len() < 20 {
+    return b.len() as u64;
+  }
+  let mut pos = 20;
+  while pos + 4 <= b.len() {
+    let kind = b[pos];
+    let le = b[pos + 1] & 1 == 1;
+    let l = if le { u16::from_le_bytes([b[pos + 2], b[pos + 3]]) } else { u16::from_be_bytes([b[pos + 2], b[pos + 3]]) } as usize;
+    let body_len = if l == 0 && kind != 0x01 && kind != 0x09 { b.len() - pos - 4 } else { l };
+    let end = (pos + 4 + body_len).min(b.len());
+    let body = &b[pos + 4..end];
+    mix(u64::from(kind));
+    let rd32 = |o: usize| -> u64 {
+      if o + 4 > body.len() {
+        return 0;
+      }
+      let a = [body[o], body[o + 1], body[o + 2], body[o + 3]];
+      u64::from(if le { u32::from_le_bytes(a) } else { u32::from_be_bytes(a) })
+    };
+    let ids = |o: usize| -> u64 {
+      if o + 8 > body.len() {
+        return 0;
+      }
+      u64::from_be_bytes([body[o], body[o + 1], body[o + 2], body[o + 3], body[o + 4], body[o + 5], body[o + 6], body[o + 7]])
+    };
+    match kind {
+      // DATA, DATAFRAG: entity ids, sequence number (low word), fragment start
+      0x15 | 0x16 => {
+        mix(ids(4));
+        mix(rd32(16));
+        if kind == 0x16 {
+          mix(rd32(20));
+        }
+      }
+      // HEARTBEAT: ids, first and last (low words)
+      0x07 => {
+        mix(ids(0));
+        mix(rd32(12));
+        mix(rd32(20));
+      }
+      // ACKNACK, GAP, NACKFRAG, HEARTBEATFRAG: ids and the first number that follows
+      0x06 | 0x08 | 0x12 | 0x13 => {
+        mix(ids(0));
+        mix(rd32(12));
+      }
+      _ => {}
+    }
+    pos = end;
+  }
+  h
+}
+
 static DOMAIN_FAULTS_ON: AtomicU64 = AtomicU64::new(0);
 #[allow(clippy::declare_interior_mutable_const)]
 const DF_ZERO: AtomicU64 = AtomicU64::new(0);
@@ -202,6 +274,7 @@ pub fn domain_fault_policy(domain: u16, loss_per_256: u64, dup_per_256: u64, see
   } else {
     (loss_per_256 & 0xff) | ((dup_per_256 & 0xff) << 8) | (seed << 16)
   };
+  DOMAIN_OCCURRENCES.lock().unwrap().retain(|(d, _), _| *d != domain);
   let old = DOMAIN_FAULTS[usize::from(domain).min(255)].swap(packed, Ordering::Relaxed);
   match (old != 0, packed != 0) {
     (false, true) => {
